@@ -498,13 +498,17 @@ def ConvexCell (cell : Cell3) : Prop :=
     (∀ g ∈ cell, f.2 * ((faceCtr g.1).sub (mean3 f.1)).dot (faceN f.1) ≤ 0) ∧
     ∃ g ∈ cell, f.2 * ((faceCtr g.1).sub (mean3 f.1)).dot (faceN f.1) < 0
 
-/-- parallelepiped `p + [0,1]u + [0,1]v + [0,1]w` with the face / node pattern of `tensorCell3` -/
+/-- parallelepiped `p + [0,1]u + [0,1]v + [0,1]w` with the face / node pattern of `tensorCell3`
+    (west, east, south, north, low, high; signs −1, +1, …) -/
 def paraCell (p u v w : P3) : Cell3 :=
   [([p, p.add v, (p.add v).add w, p.add w], -1),
    ([p.add u, (p.add u).add v, ((p.add u).add v).add w, (p.add u).add w], 1),
-   ([p, p.add w, (p.add w).add u, p.add u], -1),
-   ([p.add v, (p.add v).add w, ((p.add v).add w).add u, (p.add v).add u], 1),
+   ([p, p.add w, (p.add u).add w, p.add u], -1),
+   ([p.add v, (p.add v).add w, ((p.add u).add v).add w, (p.add u).add v], 1),
    ([p, p.add u, (p.add u).add v, p.add v], -1),
-   ([p.add w, (p.add w).add u, ((p.add w).add u).add v, (p.add w).add v], 1)]
+   ([p.add w, (p.add u).add w, ((p.add u).add v).add w, (p.add v).add w], 1)]
+
+/-- `(u × v) · w` -/
+def det3 (u v w : P3) : Rat := (u.cross v).dot w
 
 end PorepyVerif.C19
